@@ -86,6 +86,11 @@ func c10Config(r *gen.R) *c10World {
 		case 4:
 			u.Authenticator = &config.Authenticator{Type: config.BCRYPT, Options: map[string]string{"hash": "nothex!"}}
 			cred = c10Cred{Kind: "badhex"}
+			if r.Bool() {
+				// keychain path whose keychain answers with an empty hash and no error
+				u.Authenticator = &config.Authenticator{Type: config.BCRYPT, Options: map[string]string{"group": "empty"}}
+				cred = c10Cred{Kind: "keychain-empty"}
+			}
 		case 5:
 			cred = c10Cred{Kind: "none"}
 			if r.Bool() {
@@ -140,6 +145,20 @@ func c10Config(r *gen.R) *c10World {
 	}
 	for n, c := range kc {
 		w.Keys.Hashes[n] = c.Hash
+	}
+	for k := range w.Creds {
+		for n, c := range w.Creds[k] {
+			if c.Kind == "keychain-empty" {
+				if _, taken := kc[n]; taken {
+					// the name also has a real keychain entry in another scope: the keychain is keyed
+					// by name only, so this entry really has that credential
+					c2 := kc[n]
+					w.Creds[k][n] = c2
+				} else {
+					w.Keys.Hashes[n] = []byte{}
+				}
+			}
+		}
 	}
 	seen := map[string]bool{}
 	for _, u := range w.Cfg.Users {
@@ -201,6 +220,10 @@ func c10Flow(r *gen.R, w *c10World, scope int) c10Session {
 		}
 	case 3:
 		pw, pwRel = "", "empty"
+		if r.Bool() {
+			// longer than bcrypt's 72-byte limit (never a configured password here)
+			pw, pwRel = "L"+r.Alnum(72+r.Intn(128)), "wrong-long"
+		}
 	case 4:
 		// the password of another user of this scope
 		for n, c := range w.Creds[scope] {
